@@ -153,7 +153,8 @@ def exc_witness(r, case):
 
 
 def bins_values(lists, vmap):
-    return [[(x if vmap is None else vmap[x]) for x in b] for b in lists]
+    """Exact values of the items in each bin, as plain Python numbers (never numpy scalars: the oracle's arithmetic must not inherit a fixed-width dtype)."""
+    return [[value_of(x, vmap) for x in b] for b in lists]
 
 
 def check_partition_result(value, names, vmap, k, alg):
